@@ -75,3 +75,20 @@ func GoodEmit(n int, c chan []int) {
 		}
 	}
 }
+
+// COUNTERWIDTH
+func BadNarrowTally(colours []int, k int) []uint8 {
+	seen := make([]uint8, k)
+	for _, c := range colours {
+		seen[c]++
+	}
+	return seen
+}
+
+func GoodWideTally(colours []int, k int) []int {
+	seen := make([]int, k)
+	for _, c := range colours {
+		seen[c]++
+	}
+	return seen
+}
